@@ -239,3 +239,88 @@ func VerifC19NonASCIIQuotedRoundTrip() {
 	vrt.Assert("C19.nonascii.formatting-twice-changes-nothing", string(f1) == string(f2))
 	vrt.Assert("C19.nonascii.value-keeps-its-exact-bytes", hSameStrings(t.get(c1), t.get(c2)))
 }
+
+// verif:harness props=C19 tier=quick native=yes weight=60
+// verif:bounds Parse -> Compile and Parse -> Format -> Parse -> Compile on generated files of 3 routes (thorough 4), each written bare, as `inbound <path> {..}`, `outbound <path> {..}` or `internal <path> {..}`, optionally two neighbours inside one `<channel> { .. }` wrapper; inbound routes carry pull + optionally auth hmac, outbound routes deliver, internal routes pull; the compiled route list (path, channel type, auth secrets, pull path, deliver targets) must be the same, in the same order
+func VerifC19RouteOrderAndChannelsRoundTrip() {
+	n := 3
+	if vrt.Thorough() {
+		n = 4
+	}
+	paths := []string{"/hooks/a", "/hooks", "/jobs", "/x"}
+	kinds := make([]int, n) // 0 bare, 1 inbound, 2 outbound, 3 internal
+	for i := range kinds {
+		kinds[i] = vrt.Choose("channel", 4)
+	}
+	body := func(i int) string {
+		switch kinds[i] {
+		case 2:
+			return "  deliver \"https://t" + string(rune('0'+i)) + ".example/h\" {\n  }\n"
+		case 3:
+			return "  pull {\n    path \"/pull/i" + string(rune('0'+i)) + "\"\n  }\n"
+		}
+		s := "  pull {\n    path \"/pull/p" + string(rune('0'+i)) + "\"\n  }\n"
+		if vrt.Bool("auth-hmac") {
+			s = "  auth hmac raw:k" + string(rune('0'+i)) + "\n" + s
+		}
+		return s
+	}
+	chName := []string{"", "inbound", "outbound", "internal"}
+	var b strings.Builder
+	b.WriteString("pull_api {\n  auth token raw:tok\n}\n")
+	for i := 0; i < n; i++ {
+		// two neighbours of the same explicit channel may share one wrapper block
+		if kinds[i] != 0 && i+1 < n && kinds[i+1] == kinds[i] && vrt.Bool("wrapper-block") {
+			b.WriteString(chName[kinds[i]] + " {\n")
+			b.WriteString("\"" + paths[i] + "\" {\n" + body(i) + "}\n")
+			b.WriteString("\"" + paths[i+1] + "\" {\n" + body(i+1) + "}\n")
+			b.WriteString("}\n")
+			i++
+			continue
+		}
+		prefix := ""
+		if kinds[i] != 0 {
+			prefix = chName[kinds[i]] + " "
+		}
+		b.WriteString(prefix + "\"" + paths[i] + "\" {\n" + body(i) + "}\n")
+	}
+	src := b.String()
+	c1, err := Parse([]byte(src))
+	vrt.Assert("C19.routes.generated-text-parses", err == nil)
+	if err != nil {
+		return
+	}
+	k1, r1 := Compile(c1)
+	f1, err := Format(c1)
+	vrt.Assert("C19.routes.formats", err == nil)
+	c2, err := Parse(f1)
+	vrt.Assert("C19.routes.formatted-text-parses-again", err == nil)
+	if err != nil {
+		return
+	}
+	k2, r2 := Compile(c2)
+	f2, _ := Format(c2)
+	vrt.Assert("C19.routes.formatting-twice-changes-nothing", string(f1) == string(f2))
+	vrt.Assert("C19.routes.same-validation-result", r1.OK == r2.OK && len(r1.Errors) == len(r2.Errors))
+	if !r1.OK || !r2.OK {
+		return
+	}
+	vrt.Cover("routes.compiled")
+	same := len(k1.Routes) == len(k2.Routes)
+	if same {
+		for i := range k1.Routes {
+			a, z := k1.Routes[i], k2.Routes[i]
+			same = same && a.Path == z.Path && a.ChannelType == z.ChannelType && hSameStrings(a.AuthHMACSecrets, z.AuthHMACSecrets)
+			same = same && (a.Pull == nil) == (z.Pull == nil) && len(a.Deliveries) == len(z.Deliveries)
+			if same && a.Pull != nil {
+				same = a.Pull.Path == z.Pull.Path
+			}
+			if same {
+				for j := range a.Deliveries {
+					same = same && a.Deliveries[j].URL == z.Deliveries[j].URL
+				}
+			}
+		}
+	}
+	vrt.Assert("C19.routes.same-routes-in-the-same-order-with-the-same-channel-auth-and-targets", same)
+}
